@@ -162,6 +162,7 @@ class Gen:
             return
         a = op.get("a") or {}
         exc = ref.get("exc")
+        self.hit("op-outcome:raised" if exc else "op-outcome:ordinary-result")
         if op["op"] == "call":
             items = a.get("i") or []
             if any(isinstance(v, list) and v and v[0] in ("bad", "badf", "none") or
